@@ -390,11 +390,14 @@ class FaultPoints:
             return True
         return False
 
+    active = 0
+
     def __enter__(self):
         import errno
 
         import h5py
 
+        FaultPoints.active += 1
         fp = self
         real_init = h5py.File.__init__
         real_create = h5py.Group.create_dataset
@@ -437,6 +440,7 @@ class FaultPoints:
         for obj, name, orig in reversed(self._saved):
             setattr(obj, name, orig)
         self._saved = []
+        FaultPoints.active -= 1
         return False
 
 
